@@ -77,9 +77,9 @@ struct layout_transpose {
 
         [[nodiscard]] static constexpr auto is_always_unique() -> bool { return nested_mapping_t::is_always_unique(); }
 
-        [[nodiscard]] static constexpr auto is_always_contiguous() -> bool
+        [[nodiscard]] static constexpr auto is_always_exhaustive() -> bool
         {
-            return nested_mapping_t::is_always_contiguous();
+            return nested_mapping_t::is_always_exhaustive();
         }
 
         [[nodiscard]] static constexpr auto is_always_strided() -> bool
@@ -92,9 +92,9 @@ struct layout_transpose {
             return _nestedMapping.is_unique();
         }
 
-        [[nodiscard]] constexpr auto is_contiguous() const noexcept(noexcept(_nestedMapping.is_contiguous())) -> bool
+        [[nodiscard]] constexpr auto is_exhaustive() const noexcept(noexcept(_nestedMapping.is_exhaustive())) -> bool
         {
-            return _nestedMapping.is_contiguous();
+            return _nestedMapping.is_exhaustive();
         }
 
         [[nodiscard]] constexpr auto is_strided() const noexcept(noexcept(_nestedMapping.is_strided())) -> bool
